@@ -43,6 +43,9 @@ func newTimer(d time.Duration, site string, fn func(), period int64) *Timer {
 	e.checkAbort()
 	t := &Timer{site: site, fn: fn, period: period}
 	t.obj = NewObj("timer")
+	// timer operations order transitions (hash) but are not synchronisation in
+	// the Go memory model, except: arming happens before the delivery of that tick
+	t.obj.NoSync = true
 	if fn == nil {
 		t.c = MakeChan[time.Time](1, site)
 		t.C = t.c
@@ -54,10 +57,10 @@ func newTimer(d time.Duration, site string, fn func(), period int64) *Timer {
 	t.when = e.now + int64(d)
 	t.active = true
 	e.timers = append(e.timers, t)
-	e.touch(e.running, site, true, []*Obj{t.obj})
-	if e.cfg.Race {
-		t.armvc = t.obj.vc.clone()
+	if e.cfg.Race && e.running != nil {
+		t.armvc = e.running.vc.clone()
 	}
+	e.touch(e.running, site, true, []*Obj{t.obj})
 	return t
 }
 
@@ -135,7 +138,8 @@ func (t *Timer) Reset(d time.Duration) bool {
 	t.when = e.now + int64(d)
 	t.active = true
 	if e.cfg.Race {
-		t.armvc = t.obj.vc.clone()
+		t.armvc = e.running.vc.clone()
+		t.armvc[e.running.idx]-- // the clock at the Reset itself (wait ticked already)
 	}
 	return was
 }
